@@ -3118,8 +3118,10 @@ void InterrogateBuilder::
 define_enum_type(InterrogateType &itype, CPPEnumType *cpptype) {
   itype._flags |= InterrogateType::F_enum;
 
+  // The enumerators of a scoped enum are members of the enum itself; those of
+  // an unscoped enum are members of the scope the enum is declared in.
   CPPScope *scope = cpptype->_parent_scope;
-  if (cpptype->_ident != nullptr) {
+  if (cpptype->_ident != nullptr && !cpptype->is_scoped()) {
     scope = cpptype->_ident->get_scope(&parser, &parser);
   }
 
